@@ -33,3 +33,30 @@ c.raises("ValueError", "len(s) == 0", name="empty", tags="C15")
 c.ensures("result == spec.be(s)", name="val", tags="C15 C01 C03 C08 C10")
 c.ensures("0 <= result and result < spec.p256(len(s))", name="range", tags="C15")
 c.canary("result == spec.be(s) + 1")
+
+c = REG.contract("util.generate_mask")
+c.params(maxval="int").returns("tuple:int,int").pure()
+c.requires("maxval >= 0")
+c.ensures("result[1] == spec.size_bytes(maxval)", name="num-bytes", tags="C11")
+c.ensures("result[0] == spec.p2(spec.topbits(maxval)) - 1", name="mask", tags="C11")
+c.ensures("1 <= spec.topbits(maxval) and spec.topbits(maxval) <= 8", name="topbits-range", tags="C11")
+c.canary("result[0] == spec.p2(spec.topbits(maxval))")
+
+c = REG.contract("util.list_of_ints_to_number")
+c.params(l="bytelist").returns("int").pure()
+c.raises("ValueError", "len(l) == 0", name="empty", tags="C11")
+c.ensures("result == spec.be(l)", name="val", tags="C11")
+c.canary("result == spec.be(l) + 1")
+
+from pyvc import vc
+vc.INLINE_OK |= {"util.random_list_of_ints", "util.mask_list_of_ints"}
+
+c = REG.contract("util.unbiased_randrange")
+c.params(start="int", stop="int", entropy_f="entropy").returns("int").pure()
+c.requires("start < stop")
+c.loop(1, "spec.rr(stop - start, entropy_f, spec.entropy_pos(entropy_f)) == spec.rr(stop - start, entropy_f, 0)", name="first-accepted")
+c.loop(1, "spec.entropy_pos(entropy_f) >= 0", name="pos")
+c.ensures("start <= result and result < stop", name="in-range", tags="C11 C04 C01")
+c.ensures("result == start + spec.rr(stop - start, entropy_f, 0)", name="rejection-sampling", tags="C11 C03")
+c.ensures("spec.entropy_sizes_all(spec.size_bytes(stop - start))", name="block-size", tags="C11")
+c.canary("result == start + spec.rr(stop - start, entropy_f, 1)")
